@@ -111,7 +111,7 @@ type State struct {
 	Child              int8 // 0 none, 1 running, 2 ended (not yet collected), 3 collected
 	WaitReg, WaitRes   bool
 	Bad                int8 // invariant violated (0 none)
-	Ret                [4]int8
+	Ret                [6]int8
 }
 
 // violation codes
